@@ -185,6 +185,11 @@ def rt_format(kind, fmt, d):
     return {"date": p.date, "time": p.time, "datetime": lambda: p}[kind]() == d
 
 
+# names of additional properties: ordinary, single-underscore, dunder-like, look-alikes of typedpy's bookkeeping
+# attributes (none of them IS one), camel / snake case, non-ASCII
+EXTRA_NAMES = ["x1", "x2", "zz", "_id", "_x1", "_", "__v__", "__meta", "_instantiated_", "_none_field", "none_fields",
+               "instantiated", "_trusted", "camelCase", "snake_case", "Mixed_Case9", "na\u00efve", "\u540d\u524d", "\u00e9"]
+
 # ------------------------------------------------------------------ field generators
 
 NOSZ = [None, None]
@@ -669,6 +674,45 @@ def stored_state_valid(v, depth=0):
     if isinstance(v, (list, tuple, set, frozenset, collections.deque)):
         return all(stored_state_valid(a, depth + 1) for a in v)
     return True
+
+
+def extra_names(v, depth=0, out=None):
+    """Names of the additional properties (attributes that are not declared fields) of every Structure reachable from v."""
+    from typedpy import Structure
+    out = out if out is not None else []
+    if depth > 12 or v is None:
+        return out
+    if isinstance(v, Structure):
+        fields = type(v).get_all_fields_by_name()
+        for k, a in v.__dict__.items():
+            if k in SG.S.INTERNAL:
+                continue
+            if k not in fields:
+                out.append(k)
+            extra_names(a, depth + 1, out)
+    elif isinstance(v, dict):
+        for a in v.values():
+            extra_names(a, depth + 1, out)
+    elif isinstance(v, (list, tuple, set, frozenset, collections.deque)):
+        for a in v:
+            extra_names(a, depth + 1, out)
+    return out
+
+
+def has_extras(v):
+    return bool(extra_names(v))
+
+
+def name_class(n):
+    if n.startswith("__"):
+        return "dunder-like"
+    if n.startswith("_"):
+        return "single-underscore"
+    if not n.isascii():
+        return "non-ascii"
+    if n != n.lower():
+        return "camel/mixed-case"
+    return "plain"
 
 
 def compact_wrapper(cls):
